@@ -8,7 +8,7 @@ from __future__ import annotations
 
 import json
 import warnings
-from enum import Enum
+from enum import Enum, IntEnum
 
 from decl_gen import EV0, EVNAMES
 
@@ -43,7 +43,7 @@ def build(src, clsname="M"):
     from statemachine import State, StateMachine
     from statemachine.event import Event
     from statemachine.states import States
-    ns = dict(StateMachine=StateMachine, State=State, States=States, Event=Event, Enum=Enum, cb=cb)
+    ns = dict(StateMachine=StateMachine, State=State, States=States, Event=Event, Enum=Enum, IntEnum=IntEnum, cb=cb)
     try:
         with warnings.catch_warnings():
             warnings.simplefilter("ignore")
